@@ -6,6 +6,7 @@ package main
 
 import (
 	"fmt"
+	"sort"
 	"go/constant"
 	"go/types"
 	"strings"
@@ -334,14 +335,22 @@ func (fx *FnCtx) timerSet(st *State, t, dur, armed, fn string) {
 }
 
 func (fx *FnCtx) errAxioms() {
-	if fx.sol.IsDeclared("errIs") {
+	fx.sol.Declare("errIs", "(declare-fun errIs (Int Int) Bool)")
+	// (re)asserted whenever the frame that held them has been popped
+	key := "errIs-axioms"
+	if e, ok := fx.sol.defs[key]; ok && fx.sol.frameActive(e.frame) {
 		return
 	}
-	fx.sol.Declare("errIs", "(declare-fun errIs (Int Int) Bool)")
+	fx.sol.defs[key] = defEntry{"", fx.sol.frames[len(fx.sol.frames)-1].id}
 	fx.sol.Assert("(forall ((t Int)) (! (= (errIs 0 t) (= t 0)) :pattern ((errIs 0 t))))")
 	fx.sol.Assert("(forall ((e Int)) (! (=> (not (= e 0)) (errIs e e)) :pattern ((errIs e e))))")
 	// sentinel errors created by errors.New match only themselves
+	var ids []int
 	for _, id := range fx.eng.Sentinels {
+		ids = append(ids, id)
+	}
+	sort.Ints(ids)
+	for _, id := range ids {
 		s := fmt.Sprint(id)
 		fx.sol.Assert("(forall ((t Int)) (! (= (errIs " + s + " t) (= " + s + " t)) :pattern ((errIs " + s + " t))))")
 	}
